@@ -724,6 +724,15 @@ pub fn main(args: &[String]) {
                     }
                 }
             }
+            // groups of one and two members (a rewrite that adds a definition turns them into the larger ones)
+            for outer in ["(A : type) => (v : A) => ", "(A : type) => (B : type) => (v : A) => "] {
+                for defs in ["g2 : type = A", "g1 : type = int; g2 : type = A", "g2 : type = A; g1 : type = int", "g2 : type = A; g4 : type = g2"] {
+                    for b in ["(z : g2) => z", "((z : g2) => z) v", "(p : int) => ((z : g2) => z) v", "((z : g2) => (w : g2) => z) v"] {
+                        all.insert(all.len() / 2, format!("{outer}({defs}; {b})"));
+                        all.insert(all.len() / 3, format!("pick = {outer}({defs}; {b})\n{}", if outer.contains("B :") { "pick int bool 3" } else { "pick int 3" }));
+                    }
+                }
+            }
             let total = all.len();
             let keep = if count == 0 { total } else { count.min(total) };
             let stride = (total / keep).max(1);
@@ -758,6 +767,30 @@ pub fn main(args: &[String]) {
             let stride = (total / keep).max(1);
             for (i, t) in all.into_iter().enumerate() {
                 if i % stride == 0 { emit(t, "typerec"); }
+            }
+        }
+        "holedef" => {
+            // a definition that is a bare placeholder (filled in by the way it is used), among computed definitions and functions,
+            // at every position of the group: the elaborated group holds a solved hole as a definition, and evaluation has to
+            // treat it like any other definition
+            let defs = ["n = 1 + 2", "t = _", "id = (a : type) => (x : a) => x", "m = 4 * 5"];
+            let bodies = ["id t n + 1", "id t m", "id t n + id t m", "((y : t) => y + 1) n"];
+            let mut all = vec![];
+            let idx = [0usize, 1, 2, 3];
+            for a in idx { for b in idx { for c2 in idx { for d in idx {
+                let p = [a, b, c2, d];
+                if (0..4).any(|i| (0..i).any(|j| p[i] == p[j])) { continue; }
+                for body in bodies {
+                    all.push(format!("{}\n{body}", p.iter().map(|i| defs[*i]).collect::<Vec<_>>().join("\n")));
+                }
+                // three definitions: without the second computed one
+                if d == 3 { all.push(format!("{}\n{}", p[..3].iter().map(|i| defs[*i]).collect::<Vec<_>>().join("\n"), bodies[0])); }
+            }}}}
+            let total = all.len();
+            let keep = if count == 0 { total } else { count.min(total) };
+            let stride = (total / keep).max(1);
+            for (i, t) in all.into_iter().enumerate() {
+                if i % stride == 0 { emit(t, "holedef"); }
             }
         }
         "groundindex" => {
